@@ -9,6 +9,7 @@ CONSTANTS
  DelayBeforeStart = TRUE
  CancelInPlace = TRUE
  ForgetDiscarded = FALSE
+ DropLateBoxes = FALSE
  Record = FALSE
 INVARIANT NoResidue
 CHECK_DEADLOCK FALSE
